@@ -100,6 +100,53 @@ theorem discard_cut_in_later_frame (skip : Bool) (st maxF : Nat) (cx : Ctx) (h :
   · exact he
   · rw [hf2] at hf; cases hf
 
+/-- NextFrame on an interleaved control frame whose payload the transport does not hold in full. -/
+theorem nextFrame_ctl_cut (r : Rd) (s s1 : Src) (cx : Ctx) (h : Header)
+    (hh : readHeaderUtil s = (.ok h, s1)) (ha : Accepts r h) (hext : r.ext = false)
+    (hctl : opIsControl h.op = true) (hfrag : r.fragmented = true)
+    (hshort : s1.bytes.length < h.len) (hfin : s1.fin = .eof) :
+    (r.nextFrame s cx none).2.1 = some .ueof := by
+  unfold Rd.nextFrame
+  simp only [hh, ha.1, ha.2, if_false, hext, Bool.false_eq_true]
+  have hfr : ({ r with ext := false, rawN := h.len, masked := h.masked, mask := h.mask, cpos := 0, utf8on := false } : Rd).fragmented = true := by
+    simpa [Rd.fragmented] using hfrag
+  simp only [hfr, hctl, Bool.and_self, if_true]
+  have hcut := drainRaw_cut s1.fuel
+    ({ r with ext := false, rawN := h.len, masked := h.masked, mask := h.mask, cpos := 0, utf8on := false } : Rd) s1
+    (by simpa using hshort) (by unfold Src.fuel mu; omega)
+  rcases hcut with ⟨he, _⟩ | ⟨_, hf⟩
+  · exact he
+  · rw [hfin] at hf; cases hf
+
+/-- the next frame `h` is a control frame (accepted) of which only `part` arrives -/
+theorem discard_cut_in_later_control (skip : Bool) (st maxF : Nat) (cx : Ctx) (h : Header) (part : Bytes)
+    (hw : h.WF) (hctl : opIsControl h.op = true) (hacc : AcceptsAt skip st maxF h) (hshort : part.length < h.len)
+    (fs : List WFrame) (ht : Tail true skip st maxF fs) (hopen : closed fs = false)
+    (r : Rd) (s : Src) (wire : Bytes)
+    (hc : Common skip st maxF r s) (hst : r.state = st) (hn : r.rawN = wire.length)
+    (hb : s.bytes = wire ++ (encodeFs fs ++ (rfcEncode h ++ part))) (hfin : s.fin = .eof) :
+    (r.discard s cx none (fs.length + 3)).1 = some .ueof := by
+  refine discard_open_tail_gen skip st maxF cx (rfcEncode h ++ part) (some .ueof) ?_ fs ht hopen r s wire _ hc hst hn hb hfin (by omega)
+  intro r s wire n hc hst hn hb hfin
+  obtain ⟨s1, hd, hb1, ht1, _, _⟩ := drainRaw_ok s.fuel r s wire (rfcEncode h ++ part) hb hn hc.tame (by unfold Src.fuel mu; omega)
+  have hf1 : s1.fin = .eof := by have := drainRaw_fin s.fuel r s; rw [hd] at this; simpa [hfin] using this
+  have hfr : ({ r with rawN := 0 } : Rd).fragmented = true := by simp [Rd.fragmented, hst, hc.stF]
+  have hwf1 : Bytes.WF s1.bytes := by rw [hb1]; exact wf_append_right (hb ▸ hc.wf)
+  have hwt : Bytes.WF part := by rw [hb1] at hwf1; exact wf_append_right hwf1
+  obtain ⟨s2, hrh, hb2, ht2, _⟩ := readHeader_ok h hw _ hwt s1 hb1 ht1
+  have hf2 : s2.fin = .eof := by have := readHeaderUtil_fin s1; rw [hrh] at this; simpa [hf1] using this
+  have hacc' : Accepts ({ r with rawN := 0 } : Rd) h := by
+    unfold Accepts; simp only [hc.skip, hst, hc.maxF]; exact hacc
+  have hnx := nextFrame_ctl_cut ({ r with rawN := 0 } : Rd) s1 s2 cx h hrh hacc' (by simp [hc.ext]) hctl hfr
+    (by rw [hb2]; exact hshort) hf2
+  rw [Rd.discard]
+  simp only [hd, hfr, Bool.not_true, Bool.false_eq_true, if_false]
+  rcases hx : ({ r with rawN := 0 } : Rd).nextFrame s1 cx none with ⟨h', e2, r2, s3, cx2⟩
+  rw [hx] at hnx
+  simp only at hnx ⊢
+  subst hnx
+  rfl
+
 /-- Non-vacuity with the frames of Props/C04: first fragment and a ping complete, then the header of the
     final fragment (2 bytes announced) with 1 byte behind it, end of stream. -/
 example :
